@@ -252,7 +252,8 @@ def run_tree(case, ctx):
     rng = numpy.random.RandomState(case["sub"] % (2 ** 31))
     n = int([1, 2, 3, 5, 17, 60, 300][rng.randint(7)]) if not asan else int([1, 2, 5, 17, 100, 1000][rng.randint(6)])
     d = int(rng.randint(1, 6))
-    xkind = ["gauss", "offset2000", "duplicated-rows", "collinear", "dup-underdetermined"][rng.randint(5)]
+    xkind = ["gauss", "offset2000", "duplicated-rows", "collinear", "dup-underdetermined", "epoch-seconds"][
+        rng.randint(6)]
     if xkind == "dup-underdetermined":
         # a leaf with duplicated rows and fewer rows than coefficients: rank deficiency hidden by rounding
         n = int(rng.randint(3, 6))
@@ -262,6 +263,8 @@ def run_tree(case, ctx):
         X[n // 2:] = X[: n - n // 2]
     if xkind == "offset2000":
         X[:, 0] = 2008 + rng.randint(0, 12, n)
+    elif xkind == "epoch-seconds":
+        X[:, 0] = 1.7e9 + rng.randint(0, 10 ** 6, n) + rng.rand(n)     # not representable in single precision
     elif xkind == "duplicated-rows" and n > 2:
         X[n // 2:] = X[: n - n // 2]
     elif xkind == "collinear" and d > 1:
@@ -280,6 +283,10 @@ def run_tree(case, ctx):
     w = rng.rand(n) + 0.1 if weighted else None
     params = dict(criterion=crit, max_depth=int(rng.randint(1, 6)), min_samples_leaf=int([1, 2, 5, 10][rng.randint(4)]),
                   random_state=0)
+    if (case["sub"] // 3) % 3 == 0 and n >= 17:
+        # best-first growth: node ids are no longer in preorder (a right branch may be expanded before a left one)
+        params["max_leaf_nodes"] = int(rng.randint(3, 9))
+        params["max_depth"] = 8
     cfg = dict(params, n=n, d=d, X=xkind, weighted=bool(weighted), sub=case["sub"])
     K = "C09/tree/%s/" % crit
     from vrt import layouts
@@ -318,6 +325,8 @@ def run_tree(case, ctx):
     Q = rng.randn(20, d)
     if xkind == "offset2000":
         Q[:, 0] = 2008 + rng.randint(0, 12, 20)
+    if xkind == "epoch-seconds":
+        Q[:, 0] = 1.7e9 + rng.randint(0, 10 ** 6, 20) + rng.rand(20)
     pq = m.predict(Q)
     lq = m.apply(Q)
     # the same rows given in other containers / dtypes are predicted alike (integer-valued rows as int64,
@@ -326,8 +335,12 @@ def run_tree(case, ctx):
     Q32 = Q.astype(numpy.float32)
     ro = Q.copy()
     ro.setflags(write=False)
+    import pandas
     for vname, Qa, Qb in (("int64", Qi.astype(numpy.int64), Qi), ("float32", Q32, Q32.astype(numpy.float64)),
-                          ("fortran", numpy.asfortranarray(Q), Q), ("read-only", ro, Q)):
+                          ("fortran", numpy.asfortranarray(Q), Q), ("read-only", ro, Q),
+                          ("DataFrame", pandas.DataFrame(Q), Q)) + (
+                              (("list-of-rows", Q.tolist(), Q),) if crit == "simple" else ()):
+        # ('mselin' reads X.shape: a plain list is refused loudly - an API limitation outside the property)
         try:
             pa, pb = m.predict(Qa), m.predict(Qb)
         except Exception as e:
